@@ -338,8 +338,11 @@ def embed_local_links_as_data_urls(
             )
 
         # Guess mimetype
-        mimetype, _encoding = mimetypes.guess_type(fspath)
-        if mimetype is None:
+        mimetype, encoding = mimetypes.guess_type(fspath)
+        if mimetype is None or encoding is not None:
+            # NB: For a compressed file (e.g. *.txt.gz, *.svgz) the guessed
+            # type is that of the uncompressed content, not of the bytes
+            # embedded here (and a data URL cannot name a content encoding).
             mimetype = "application/octet-stream"
 
         # Base64 encode
